@@ -19,7 +19,12 @@
 # R7 evaluates tdma_sched_reset concretely (same transfer functions, constant
 # folding through the CFG) for every ring position and collects the set of
 # buckets whose fill count ends as 0.
+# R8 runs tdma_schedule_set concretely (same transfer functions, class Replay) over small witness sets with empty
+# frames and compares the bucket every item lands in with (cur + offset + markers before it) mod ring.
+# R9 evaluates the sort helper for every fill level (counters concrete, priority comparisons followed both ways) and
+# collects the seq[] positions written on every path: definite initialisation of what the execute loop reads.
 
+import itertools
 import os
 import shutil
 import tempfile
@@ -60,7 +65,16 @@ EXPLANATION = (
     "comparison (resolved, desugared clang types) compose to a chain that preserves the order of all int16 "
     "priorities -- evaluated over the 65536-value domain, violations come with a concrete pair (R6); "
     "tdma_sched_reset, whose control flow depends on the ring position only, is evaluated concretely for each "
-    "of the 25 positions and leaves num_items = 0 in every bucket other than the current one (R7).")
+    "of the 25 positions and leaves num_items = 0 in every bucket other than the current one (R7); "
+    "tdma_schedule_set, whose control flow depends on the kind of the set entries and the fill counts only, is run "
+    "concretely over all 31 witness sets of up to four entries over {item, END_FRAME} (empty frames, leading / trailing / "
+    "consecutive markers) at three (ring position, offset, fill level) points and copies every item entry into bucket "
+    "(cur_bucket + frame_offset + markers before it) mod ring, nothing for a marker (R8: every marker advances the "
+    "frame by exactly one, item in between or not; the for-all-sets statement is R3's induction); the sort helper, "
+    "evaluated for each fill level 0..ARRAY_SIZE(item) with its counters and fill-level tests concrete and its priority "
+    "comparisons followed both ways, has written every position seq[0 .. num_items-1] that tdma_sched_execute reads "
+    "when it returns, on every path (R9: definite initialisation of the order sequence in the same call, whatever the "
+    "storage class of the array).")
 ASSUMPTIONS = [
     "type-based aliasing: stores through int*/non-scheduler lvalues do not modify scheduler fields; "
     "distinct field names of the scheduler structs do not overlap",
@@ -78,6 +92,12 @@ ASSUMPTIONS = [
     "by R4's store); every other bucket must be emptied by the reset itself",
     "the address of a member or array element of an object (&bucket->item[n]) is never NULL; an access through a "
     "pointer that may be NULL is judged, where it does not trap, as an access to its non-NULL alternative",
+    "the callbacks of real set entries are functions other than tdma_end_set (SCHED_ITEM tables name real handlers); "
+    "every bucket may hold any fill level 0..ARRAY_SIZE(item) when a set is scheduled (R8 runs with all buckets at one "
+    "common fill level that leaves room for the witness set)",
+    "the priority sort helper is called by tdma_sched_execute with the bucket it executes and does not change that "
+    "bucket's num_items (checked), so the fill level it sees is the number of positions the execute loop reads; "
+    "positions >= num_items (items scheduled on the fly into the running frame) are outside the decided clauses",
 ]
 
 FW = "src/target/firmware"
@@ -2139,15 +2159,19 @@ def r3_set(a):
     for key, val in fn.inn[h.id].items():
         if key[0] != "L" or not fn.is_phi(val, key, h):
             continue
+        # a loop variable that moves in step with the marker count K: it is its start value (the caller's offset, or
+        # a constant -- a marker counter of the code's own) + K at the loop head
         okk = True
+        starts = set()
         for (p, l, vals, inside) in fn.leaves([key, K], h):
             v, kv = vals
             if inside:
                 okk = okk and X.sub(v, val) == X.sub(kv, Kh)
             else:
-                okk = okk and v == p0 and kv == C0
-        if okk:
-            sigma[val] = X.add(p0, Kh)
+                okk = okk and (v == p0 or v[0] == "c") and kv == C0
+                starts.add(v)
+        if okk and len(starts) == 1:
+            sigma[val] = X.add(next(iter(starts)), Kh)
 
     def sub(t):
         return rebuild(t, lambda x: sigma.get(x))
@@ -2159,10 +2183,13 @@ def r3_set(a):
         if rf is None:
             r = ring_decide(a, fn, t, S, X.add(p0, kv), "the bucket index of tdma_schedule_set")
             if r is not None:
-                return r[0], "bucket index " + (r[1] if r[0] else show(t) + " -- " + r[1])
+                txt = "bucket index " + (r[1] if r[0] else show(t) + " -- " + r[1])
+                evaluated.add(txt)
+                return r[0], txt
             raise AnalysisError(UNDECIDED % (name, show(t)))
         return rf is not None and rf[0] == "wrap" and rf[2] == a.NFR and rf[1] == X.add(p0, kv), "bucket index %s" % show(t)
     res = {"first": [], "marker": [], "item": []}
+    evaluated = set()                     # failure texts that come with a concrete (ring position, offset): decided by value
     if fn.is_phi(BN) and BN[3] == h.id:
         for (p, l, vals, inside) in fn.leaves([key_by_name(fn, BN[2]), K], h):
             v, kv = vals
@@ -2181,6 +2208,7 @@ def r3_set(a):
                 good, txt = r if r is not None else placed(v, kv)
                 if r is not None and not good:
                     txt = "bucket index " + txt
+                    evaluated.add(txt)
             res[cls].append((good, txt))
     else:
         good, txt = placed(BN, Kh)
@@ -2194,10 +2222,21 @@ def r3_set(a):
               "item": "storing an item does not move the frame the set is filling"}
     if not res["marker"]:
         res["marker"].append((False, "no path from the marker branch back to the loop"))
+    # The placement above is an inductive invariant at the loop head -- sufficient, not necessary: code that keeps the
+    # bucket number current only where an item is stored (looked up once per run of markers, ...) breaks the invariant
+    # without misplacing anything.  A failure that is a mismatch of symbolic forms / an unchanged carried value (not a
+    # value computed for a concrete ring position and offset) therefore stands as a violation only when the fold of
+    # the function over witness sets (R8) has found an item in a wrong frame too; when that fold ran and found every
+    # item in its frame, the invariant is merely "not established": no verdict.
+    fold = getattr(a, "set_fold", None)
+    unproven = []
     for cls in ("first", "marker", "item"):
         if not res[cls]:
             continue
         badt = sorted({t for (ok, t) in res[cls] if not ok})
+        if badt and not any(t in evaluated for t in badt) and fold is not None and not any(fold.values()):
+            unproven.append("%s: %s" % (keytxt[cls], "; ".join(badt)))
+            continue
         a.ob(R, name, keytxt[cls], want[cls], "; ".join(badt) if badt else want[cls], not badt, sts[0]["node"])
     # (c) nothing is stored for markers
     incs = [s for s in fn.stores if s["grp"] == "num_items"]
@@ -2218,6 +2257,10 @@ def r3_set(a):
     a.ob(R, name, "the end-of-set marker (cb == &tdma_end_set) leaves the loop without storing",
          "loop left", "loop continues" if h.id in reach else "loop left",
          h.id not in reach and not (reach & {s["node"].id for s in sts}), ce.ast)
+    if unproven:
+        raise AnalysisError("tdma_schedule_set(): the loop invariant `bucket = (cur_bucket + frame_offset + markers consumed) "
+                            "mod %d` is not established (%s) while the fold over witness sets finds every item in its frame "
+                            "-- the placement for all sets is unclassifiable" % (a.NFR, " | ".join(unproven)))
 
 
 
@@ -2249,9 +2292,13 @@ def r4_execute(a):
         a.ob(R, name, "the executed items are those of the current frame's bucket",
              show(Bcur), show(B), unver(B) == unver(Bcur), ic["node"])
         # position: seq[i], i = 0 .. num_items-1
-        if not (J[0] == "ld" and J[1][0] == "idx" and J[1][1][0] == "loc"):
+        # the order sequence: an array of this function -- automatic, or static (only this function and the helpers it
+        # hands the array to can reach it; whether its entries are written before they are read is R9's question)
+        if not (J[0] == "ld" and J[1][0] == "idx" and
+                (J[1][1][0] == "loc" or (J[1][1][0] == "g" and J[1][1][1].startswith(name + ".")))):
             raise AnalysisError("tdma_sched_execute(): executed slot %s is not taken from a local order sequence -- unclassifiable" % show(J))
         SEQ, POS = J[1][1], J[1][2]
+        a.seq_lv = SEQ
         if not fn.is_phi(POS):
             raise AnalysisError("tdma_sched_execute(): position %s is not a loop variable -- unclassifiable" % show(POS))
         h = phi_node(fn, POS)
@@ -2920,16 +2967,30 @@ CUR_LV = ("fld", SCHED, "cur_bucket")
 REPLAY_STEPS = 4000
 
 
+def nonnull(t):
+    """The address of a function or of an object: never NULL (see ASSUMPTIONS)."""
+    return isinstance(t, tuple) and t[0] in ("fn", "addr")
+
+
 def concretise(t, cur):
     """The term with every load of sched->cur_bucket replaced by the constant `cur`, constants folded."""
+    return resolve(t, lambda lv, ver: X.C(cur) if lv == CUR_LV else None)
+
+
+def resolve(t, load):
+    """The term with every memory load `load(lvalue, version)` has a value for replaced by that value, constants
+    folded: arithmetic, comparisons, boolean connectives, ?:, modulo / division of non-negative constants; the address
+    of a function or object is true, differs from NULL and (functions) from the address of every other function."""
     if not isinstance(t, tuple):
         return t
     k = t[0]
-    if k == "ld" and t[1] == CUR_LV:
-        return X.C(cur)
-    if k in ("c", "p", "g", "loc", "fn", "undef", "sizeof", "str", "res", "phi", "mv", "ver"):
+    if k in ("c", "p", "g", "loc", "fn", "undef", "sizeof", "str", "res", "phi", "mv", "ver", "top"):
         return t
-    sub = tuple(concretise(x, cur) if isinstance(x, tuple) else x for x in t[1:])
+    if k == "ld":
+        lv = resolve(t[1], load)
+        v = load(lv, t[2])
+        return v if v is not None else ("ld", lv, t[2])
+    sub = tuple(resolve(x, load) if isinstance(x, tuple) else x for x in t[1:])
     allc = all(isinstance(x, tuple) and x[0] == "c" for x in sub)
     if k == "+":
         return X.add(*sub)
@@ -2952,11 +3013,17 @@ def concretise(t, cur):
             return X.C(int(sub[1][1] < sub[2][1] if sub[0] == "<" else sub[1][1] == sub[2][1]))
         if sub[0] == "==" and sub[1] == sub[2]:
             return C1
+        if sub[0] == "==" and isinstance(sub[1], tuple) and isinstance(sub[2], tuple):
+            x, y = sub[1], sub[2]
+            if (nonnull(x) and y == C0) or (nonnull(y) and x == C0) or (x[0] == "fn" and y[0] == "fn"):
+                return C0
         return ("cmp",) + sub
     if k == "not":
+        if nonnull(sub[0]):
+            return C0
         return X.C(int(sub[0][1] == 0)) if allc else ("not",) + sub
     if k in ("and", "or"):
-        vals = [x[1] != 0 if x[0] == "c" else None for x in sub]
+        vals = [x[1] != 0 if x[0] == "c" else (True if nonnull(x) else None) for x in sub]
         if k == "and":
             if any(v is False for v in vals):
                 return C0
@@ -2967,6 +3034,8 @@ def concretise(t, cur):
     if k == "ite":
         if sub[0][0] == "c":
             return sub[1] if sub[0][1] != 0 else sub[2]
+        if nonnull(sub[0]):
+            return sub[1]
         return X.ite(*sub)
     if k == "&":
         return X.band(*sub)
@@ -3121,6 +3190,473 @@ def r7_reset(a):
          node if node is not None else fn.f)
 
 
+# ---------------------------------------------------------------- concrete replay (R8, R9)
+
+class Replay:
+    """One function stepped node by node through its statement CFG with the transfer functions of the value dataflow
+    (Fn.exec_stmt / Fn.rval, helper results inlined as decision terms).  The driver owns the state (locals -> terms),
+    resolves the memory loads it has values for (`resolve`) and decides which successor(s) to follow."""
+
+    def __init__(self, a, name):
+        self.a, self.name = a, name
+        self.fn = Fn(a.ctx, name)         # a private instance: the recorded events of the rules' instance stay untouched
+        self.g = self.fn.g
+
+    def entry_state(self, args=None):
+        st = {}
+        for i, p in enumerate(self.fn.params):
+            st[("L", p["id"])] = (args or {}).get(i, ("p", i, p.get("name") or "arg%d" % i))
+        return st
+
+    def step(self, n, st):
+        """Execute CFG node n in state st -> events of the node (stores, calls, returned values, condition term, raw
+        state after the node)."""
+        fn = self.fn
+        m = (len(fn.stores), len(fn.calls), len(fn.icalls), len(fn.rets))
+        fn.st, fn.cur, fn.rec, fn.k, fn.world = dict(st), n, True, 0, False
+        val = None
+        try:
+            if n.kind == "stmt":
+                fn.exec_stmt(n.ast)
+            elif n.kind == "cond":
+                val = fn.rval(n.cond) if getattr(n, "cond", None) is not None else C1
+            elif n.kind not in ("entry", "label"):
+                raise AnalysisError("%s(): control construct (%s) outside the replayable vocabulary" % (self.name, n.kind))
+        finally:
+            fn.rec = False
+        ev = {"stores": fn.stores[m[0]:], "calls": fn.calls[m[1]:], "icalls": fn.icalls[m[2]:], "rets": fn.rets[m[3]:],
+              "world": fn.world, "val": val, "st": fn.st}
+        del fn.stores[m[0]:], fn.calls[m[1]:], fn.icalls[m[2]:], fn.rets[m[3]:]
+        return ev
+
+    def opaque(self, ev):
+        """Calls of a replayed node whose memory effects the replay does not see."""
+        out = []
+        if ev["world"] or ev["icalls"]:
+            out.append("code outside this file")
+        for c in ev["calls"]:
+            nm = c["name"]
+            if nm in IO_FUNCS or nm in ("memset", "memcpy", "memmove") or nm not in self.a.tu.functions:
+                continue
+            sub = self.a.ctx.fn(nm)
+            if sub is None or sub.world or any(not (isinstance(s["grp"], tuple) and s["grp"][0] == "loc") for s in sub.stores):
+                out.append("%s()" % nm)
+        return out
+
+
+def truth(v):
+    """A condition value as 0 / 1 where it is known (the address of a function or object is true)."""
+    if isinstance(v, tuple) and v[0] == "c":
+        return X.C(int(v[1] != 0))
+    if nonnull(v):
+        return C1
+    return v
+
+
+def check_small(fn, st):
+    for kk, vv in st.items():
+        if kk[0] == "L" and isinstance(vv, tuple) and vv[0] == "c" and not -1 <= vv[1] <= 255:
+            raise AnalysisError("%s(): local %s takes the value %d, outside the range in which integer conversions "
+                                "are modelled as value-preserving" % (fn.name, fn.keyname(kk), vv[1]))
+
+
+# ---------------------------------------------------------------- R8 frames of a set, folded over witness sets
+
+BUCKETS_LV = ("fld", SCHED, "bucket")
+SET_WITNESS_LEN = 4
+
+
+def witness_sets(maxlen):
+    """All sets of up to maxlen entries over {item, end-of-frame marker} (the end-of-set marker follows): with
+    maxlen >= 3 they contain leading, trailing and consecutive markers as well as frames of several items."""
+    out = []
+    for n in range(maxlen + 1):
+        out.extend(itertools.product("IF", repeat=n))
+    return out
+
+
+def set_text(pattern):
+    return "{%s}" % ", ".join(["item" if x == "I" else "END_FRAME" for x in pattern] + ["END_SET"])
+
+
+def has_empty_frame(pattern):
+    return "" in "".join(pattern).split("F") and "F" in pattern
+
+
+def replay_set(a, rp, pattern, cur, off, fill):
+    """Concrete run of tdma_schedule_set(off, set, p3) on the witness set `pattern` with sched->cur_bucket == cur and
+    every bucket holding `fill` items.  The function's control flow depends on the kind of the set entries (their cb:
+    NULL, &tdma_end_set, anything else) and the fill counts only; both are concrete here, so every branch folds.
+    -> (ok, text): every item entry behind k markers is stored in bucket (cur + off + k) mod ring and nowhere else,
+    nothing is stored for a marker."""
+    fn, g, name = rp.fn, rp.g, rp.name
+    ring = a.NFR
+    pset = ("p", 1, fn.params[1].get("name") or "arg1")
+    kinds = tuple(pattern) + ("E",)
+    cbs = {}
+    for i, k in enumerate(kinds):
+        cbs[i] = C0 if k == "F" else ("fn", "tdma_end_set") if k == "E" else ("fn", "<callback of set entry #%d>" % i)
+    owner = {v: i for i, v in cbs.items() if kinds[i] == "I"}
+
+    def entry_index(E):
+        if E == ("deref", pset):
+            return 0
+        if E[0] == "deref" and E[1][0] == "padd" and E[1][1] == pset and E[1][2][0] == "c":
+            return E[1][2][1]
+        return None
+    box = {"snaps": {}}
+
+    def load(lv, ver):
+        if lv == CUR_LV:
+            return X.C(cur)
+        if lv[0] == "fld" and lv[2] == "num_items":
+            B = lv[1]
+            if B[0] == "idx" and B[1] == BUCKETS_LV and B[2][0] == "c" and ver in box["snaps"]:
+                if not 0 <= B[2][1] < ring:
+                    raise AnalysisError("%s(): bucket index %d outside the ring (decided by R2)" % (name, B[2][1]))
+                return X.C(box["snaps"][ver].get(B[2][1], fill))
+            return None
+        if lv[0] == "fld" and lv[2] == "cb":
+            i = entry_index(lv[1])
+            if i is not None and 0 <= i < len(kinds):
+                return cbs[i]         # (an entry outside the witness set stays unknown: a branch on it is no verdict)
+        return None
+
+    def bucket_slot(lv):
+        slot = item_slot(lv)
+        if slot is None:
+            return None, None
+        B, I = slot[1][1], slot[2]
+        if not (B[0] == "idx" and B[1] == BUCKETS_LV and B[2][0] == "c" and I[0] == "c"):
+            raise AnalysisError("%s(): item store into %s does not resolve to bucket[constant].item[constant] for the set %s "
+                                "-- unclassifiable" % (name, show(lv), set_text(pattern)))
+        return slot, B[2][1]
+    mem = {}
+    placed = []                           # (bucket, set entry index | None, what)
+    st = rp.entry_state({0: X.C(off)})
+    n, steps = g.entry, 0
+    while n is not g.exit:
+        steps += 1
+        if steps > REPLAY_STEPS:
+            raise AnalysisError("%s(): no termination within %d steps for the set %s" % (name, REPLAY_STEPS, set_text(pattern)))
+        v0 = fn.ver("num_items", st)
+        box["snaps"] = {v0: mem}
+        ev = rp.step(n, st)
+        op = rp.opaque(ev)
+        if op:
+            raise AnalysisError("%s(): delegates memory writes to %s -- the placement of a set cannot be replayed" % (
+                name, ", ".join(op)))
+        v1 = fn.ver("num_items", ev["st"])
+        if len([s for s in ev["stores"] if s["grp"] == "num_items"]) > 1:
+            raise AnalysisError("%s(): several writes of num_items in one statement -- unclassifiable" % name)
+        for s in ev["stores"]:
+            grp = s["grp"]
+            if grp in ("cur_bucket", "ALL"):
+                raise AnalysisError("%s(): writes %s while scheduling a set -- unclassifiable" % (name, show(s["lv"])))
+            if grp == ("pp", 1):
+                raise AnalysisError("%s(): writes into the caller's set -- unclassifiable" % name)
+            if grp == "num_items":
+                lv = resolve(s["lv"], load)
+                B = lv[1] if lv[0] == "fld" else None
+                v = resolve(s["val"], load) if s["val"] is not None else None
+                if s["how"] != "assign" or B is None or not (B[0] == "idx" and B[1] == BUCKETS_LV and B[2][0] == "c") \
+                        or v is None or v[0] != "c" or not 0 <= B[2][1] < ring:
+                    raise AnalysisError("%s(): write %s = %s to a fill count does not resolve to constants for the set %s "
+                                        "-- unclassifiable" % (name, show(lv), show(v) if v is not None else s["how"],
+                                                               set_text(pattern)))
+                mem = dict(mem)
+                mem[B[2][1]] = v[1]
+                if v1 != v0:
+                    box["snaps"][v1] = mem
+            elif grp == "item":
+                if s["how"] == "fill":
+                    raise AnalysisError("%s(): memset over an item slot -- unclassifiable" % name)
+                lv = resolve(s["lv"], load)
+                slot, b = bucket_slot(lv)
+                if slot is None:
+                    raise AnalysisError("%s(): store into item[] that is not a single slot: %s" % (name, show(lv)))
+                if lv == slot:
+                    if s["how"] == "copy":
+                        if s.get("size") != ("sizeof", "struct tdma_sched_item"):
+                            raise AnalysisError("%s(): item copy of a size other than sizeof(struct tdma_sched_item) -- "
+                                                "unclassifiable" % name)
+                        E = deref(resolve(s["src"], load))
+                    elif s["how"] == "assign" and s["val"] is not None and s["val"][0] == "ld":
+                        E = resolve(s["val"][1], load)
+                    else:
+                        raise AnalysisError("%s(): whole-slot store of unclassifiable shape" % name)
+                    i = entry_index(E)
+                    if i is None or not 0 <= i < len(kinds):
+                        raise AnalysisError("%s(): the stored item %s is not an entry of the set -- unclassifiable" % (name, show(E)))
+                    placed.append((b, i if kinds[i] == "I" else None, "entry #%d" % i))
+                elif lv[0] == "fld" and lv[1] == slot:
+                    if lv[2] != "cb":
+                        continue          # p1 / p2 / p3 / prio of the slot: decided by R3
+                    v = resolve(s["val"], load) if s["val"] is not None else None
+                    if v in owner:
+                        placed.append((b, owner[v], "entry #%d" % owner[v]))
+                    elif v == C0 or v == ("fn", "tdma_end_set"):
+                        placed.append((b, None, "a marker (cb %s)" % show(v)))
+                    else:
+                        raise AnalysisError("%s(): callback %s stored into an item slot is not a set entry's -- unclassifiable" % (
+                            name, show(v) if v is not None else "?"))
+                else:
+                    raise AnalysisError("%s(): partial store %s into an item slot -- unclassifiable" % (name, show(lv)))
+        if v1 != v0 and v1 not in box["snaps"]:
+            box["snaps"][v1] = mem
+        st = {k: resolve(v, load) for k, v in ev["st"].items()}
+        check_small(fn, st)
+        if n.kind == "cond":
+            v = truth(resolve(ev["val"], load))
+            if v[0] != "c":
+                raise AnalysisError("%s(): branch on %s, which is not a function of the kind of the set entries, the fill "
+                                    "counts and the ring position -- unclassifiable" % (name, show(v)))
+            nxt = [s for (s, l) in n.succ if l == (v[1] != 0)]
+        else:
+            nxt = [s for (s, l) in n.succ]
+        if len(nxt) != 1:
+            raise AnalysisError("%s(): %d successors at a replayed node -- unclassifiable" % (name, len(nxt)))
+        n = nxt[0]
+    k = 0
+    for i, x in enumerate(pattern):
+        if x == "F":
+            k += 1
+            continue
+        want = (cur + off + k) % ring
+        got = sorted({b for (b, j, _w) in placed if j == i})
+        if got != [want]:
+            where = "not stored" if not got else "stored in bucket %s (%s frame(s) after the set's first frame)" % (
+                ", ".join(str(b) for b in got), ", ".join(str((b - cur - off) % ring) for b in got))
+            return False, ("set %s scheduled with frame_offset=%d at cur_bucket=%d: entry #%d, an item behind %d end-of-frame "
+                           "marker(s), is %s instead of in bucket %d (%d frame(s) after the first)" % (
+                               set_text(pattern), off, cur, i, k, where, want, k))
+    extra = [(b, w) for (b, j, w) in placed if j is None]
+    if extra:
+        return False, "set %s: %s is stored as an item in bucket %d" % (set_text(pattern), extra[0][1], extra[0][0])
+    return True, ""
+
+
+def r8_set_frames(a):
+    """C08.R8 -- decides a necessary condition of the clause "a multi-frame set places the items of its k-th frame k
+    frames after its first" (and through it "executed exactly N frame advances later"): EVERY end-of-frame marker of a
+    set advances the frame by exactly one, whether or not an item lies between two markers or before the first one.
+    tdma_schedule_set is folded (concrete run through its CFG with the module's own transfer functions, wrap_bucket and
+    other helpers inlined) over all 31 witness sets of up to 4 entries over {item, END_FRAME} -- among them
+    {item, END_FRAME, END_FRAME, item}, leading and trailing markers -- at three (ring position, offset, fill level)
+    triples including a wrap over the ring end; the bucket every item entry is copied into must be
+    (cur_bucket + frame_offset + number of markers before the entry) mod ring.  A difference is a concrete input on
+    which the code schedules an item into the wrong frame.  How the frame is tracked (recomputed per marker, stepped,
+    resolved lazily, looked up per item) is irrelevant; a run the replay cannot follow is an AnalysisError.  The
+    for-all-sets statement for code in the recognised shape is R3's inductive check; R8 is its witness fold."""
+    R = "C08.R8"
+    name = "tdma_schedule_set"
+    rp = Replay(a, name)
+    if len(rp.fn.params) != 3:
+        raise AnalysisError("tdma_schedule_set(): expected three parameters -- unclassifiable")
+    ring = a.NFR
+    # (ring position, offset of the first frame, fill level of every bucket): the last frame of a witness set stays
+    # below the scheduler depth (offset + SET_WITNESS_LEN < ring: the property's quantifier), the second and third
+    # point wrap over the ring end, no point exceeds a bucket's capacity
+    points = [(0, 0, 0), (ring - 1, 1, 0), (ring // 2, ring - 1 - SET_WITNESS_LEN, max(0, a.NCB - SET_WITNESS_LEN - 1))]
+    if ring <= SET_WITNESS_LEN + 1:
+        raise AnalysisError("ring of %d frames is too short for the witness sets" % ring)
+    runs = 0
+    bad = {"dense": None, "sparse": None}
+    for pattern in witness_sets(SET_WITNESS_LEN):
+        cls = "sparse" if has_empty_frame(pattern) else "dense"
+        for (cur, off, fill) in points:
+            runs += 1
+            ok, text = replay_set(a, rp, pattern, cur, off, fill)
+            if not ok and bad[cls] is None:
+                bad[cls] = text
+    a.set_fold = dict(bad)
+    a.L.floor(R, "concrete runs of tdma_schedule_set over witness sets", runs, 3 * (2 ** (SET_WITNESS_LEN + 1) - 1))
+    want = "bucket (cur_bucket + frame_offset + k) mod %d for the items behind k markers, in all runs" % ring
+    a.ob(R, name, "tdma_schedule_set(): in a set whose frames all hold items, the items behind the k-th end-of-frame marker "
+         "are stored k frames after the set's first frame (folded over witness sets)", want, bad["dense"] or want,
+         bad["dense"] is None, rp.fn.f)
+    a.ob(R, name, "tdma_schedule_set(): every end-of-frame marker moves the following items exactly one frame later, also "
+         "when no item lies between two markers or before the first one (sets with empty frames, folded over witness sets)",
+         want, bad["sparse"] or want, bad["sparse"] is None, rp.fn.f)
+
+
+# ---------------------------------------------------------------- R9 order sequence definitely written
+
+TOP = ("top",)
+SORT_STATES = 60000
+
+
+def sort_written(a, rp, bi, qi, n):
+    """The seq[] positions the sort helper has written when it returns, for a bucket holding n items.  Abstract run
+    through the CFG: integer locals and the pointers formed from the parameters are concrete, every other value
+    (item contents, sequence contents) is unknown; a branch whose condition is known is followed, an unknown one
+    (priority comparison) is followed both ways.  -> list of (exact, written positions, branches taken): one entry per
+    way of reaching the function's exit; `exact` when no unknown branch and no unresolved write lies on it (then it is
+    THE execution for every bucket of n items), the others are joined by intersection (must-written)."""
+    fn, g, name = rp.fn, rp.g, rp.name
+    SEQ = ("p", qi, fn.params[qi].get("name") or "arg%d" % qi)
+    NUM = ("fld", deref(("p", bi, fn.params[bi].get("name") or "arg%d" % bi)), "num_items")
+
+    def load(lv, ver):
+        return X.C(n) if lv == NUM else None
+
+    def opaque_term(v):
+        return any(isinstance(x, tuple) and x[0] in ("ld", "res", "top", "phi") for x in subterms(v))
+
+    def abstract(v):
+        v = resolve(v, load)
+        return TOP if opaque_term(v) else v
+
+    def seq_idx(lv):
+        if lv == ("deref", SEQ):
+            return C0
+        if lv[0] == "deref" and lv[1][0] == "padd" and lv[1][1] == SEQ:
+            return lv[1][2]
+        return None
+    states, trails, queued, work = {}, {}, set(), []
+
+    def push(node, loc, exact, W, trail):
+        key = (node.id, loc, exact)
+        old = states.get(key)
+        if old is None:
+            states[key] = W
+        elif exact:
+            raise AnalysisError("%s(): does not terminate for a bucket of %d items" % (name, n))
+        else:
+            if old <= W:
+                return
+            states[key] = old & W
+        if len(states) > SORT_STATES:
+            raise AnalysisError("%s(): too many states for a bucket of %d items -- unclassifiable" % (name, n))
+        if exact:
+            trails[key] = trail
+        if key not in queued and node is not g.exit:
+            queued.add(key)
+            work.append((node, loc, exact))
+    start = rp.entry_state()
+    push(g.entry, tuple(sorted(start.items())), True, frozenset(), ())
+    while work:
+        node, loc, exact = work.pop()
+        key = (node.id, loc, exact)
+        queued.discard(key)
+        W = states[key]
+        trail = trails.get(key, ())
+        ev = rp.step(node, dict(loc))
+        if rp.opaque(ev):
+            exact = False                 # writes the replay does not see: the written set is a lower bound only
+        for s in ev["stores"]:
+            grp = s["grp"]
+            if grp in TD_GROUPS or grp == "ALL":
+                raise AnalysisError("%s(): the sort helper writes scheduler state (%s) -- unclassifiable" % (name, show(s["lv"])))
+            lv = resolve(s["lv"], load)
+            if grp == ("pp", qi):
+                k = seq_idx(lv)
+                cnt = None
+                if k is not None and k[0] == "c":
+                    if s["how"] == "assign":
+                        cnt = 1
+                    elif s.get("pointee") == "int" and isinstance(s.get("size"), tuple) and s["size"][0] == "c":
+                        cnt = s["size"][1] // (ARM_INT["int"][0] // 8)
+                if cnt is None:
+                    exact = False         # a write to the sequence at an unresolved position
+                else:
+                    W = W | frozenset(range(k[1], k[1] + cnt))
+            elif grp == "OTHER" or opaque_term(lv):
+                exact = False             # a write through a pointer the replay does not know: may be the sequence
+        st2 = {k: abstract(v) for k, v in ev["st"].items() if k[0] == "L"}
+        check_small(fn, st2)
+        loc2 = tuple(sorted(st2.items()))
+        if node.kind == "cond":
+            v = truth(resolve(ev["val"], load))
+            if v[0] == "c":
+                taken = "%s is %s" % (show(ev["val"]), "true" if v[1] else "false")
+                for (s, l) in node.succ:
+                    if l == (v[1] != 0):
+                        push(s, loc2, exact, W, (trail + (taken,))[-3:] if exact else ())
+            else:
+                for (s, l) in node.succ:
+                    if l in (True, False):
+                        push(s, loc2, False, W, ())
+        else:
+            for (s, l) in node.succ:
+                push(s, loc2, exact, W, trail)
+    return [(key[2], W, trails.get(key, ())) for key, W in states.items() if key[0] == g.exit.id]
+
+
+def r9_order_initialised(a, sort):
+    """C08.R9 -- decides a necessary condition of "executed exactly once ... with the parameters it was scheduled
+    with" and "nothing runs in a frame it was not scheduled for": tdma_sched_execute runs bucket->item[seq[pos]] for
+    pos = 0 .. num_items-1 (R4), so every one of these seq[] positions must have been written by the sort helper in
+    the same call, on every path through it, for every fill level num_items = 0 .. ARRAY_SIZE(item) -- definite
+    initialisation of the order sequence (an automatic array with an initialiser at its declaration is initialised in
+    every call already; when tdma_sched_execute writes the array itself or hands it to another function too, a
+    position the helper leaves unwritten is no verdict).  A position that is not written holds whatever the array held before: an
+    indeterminate value for an automatic array, the order of an earlier frame for a static one (an item that ran long
+    ago is executed again, the scheduled one never) -- the storage class does not matter to the rule, a static array
+    is acceptable exactly when it is rewritten for all positions < num_items on every path.  Decided by evaluating the
+    helper for each of the fill levels (loop counters and tests of the fill level concrete, priority comparisons
+    followed both ways) and collecting the positions written on every path to its exit; a violation is reported only
+    for a path without unknown branch (the execution of every bucket with that many items) and names the fill level,
+    the position and the branches taken.  Which loop form initialises the sequence, whether an empty or one-item
+    bucket takes a fast path behind the initialisation, and whether all ARRAY_SIZE(item) or only num_items positions
+    are written is irrelevant."""
+    R = "C08.R9"
+    if sort is None:
+        raise AnalysisError("tdma_sched_execute(): the priority sort helper could not be identified")
+    name, bi, qi = sort
+    rp = Replay(a, name)
+    fn = rp.fn
+    if fn.world or any(s["grp"] in TD_GROUPS or s["grp"] == "ALL" for s in fn.stores):
+        raise AnalysisError("%s(): the sort helper writes scheduler state or calls unknown code -- the fill level is not "
+                            "constant during the call, unclassifiable" % name)
+    # what tdma_sched_execute itself does to the array before it reads it
+    ex = a.fns["tdma_sched_execute"]
+    SEQ = getattr(a, "seq_lv", None)
+    decl = None
+    for d in walk(ex.f):
+        if kind(d) == "VarDecl" and SEQ is not None and SEQ in (("loc", ex.vname.get(d.get("id"))), ("g", "%s.%s" % (ex.name, d.get("name")))):
+            decl = d
+    if decl is None:
+        raise AnalysisError("tdma_sched_execute(): declaration of the order sequence not found")
+    static = SEQ[0] == "g"
+    at_decl = not static and bool(decl.get("init"))       # an automatic array with an initialiser: every element, every call
+    own = [s for s in ex.stores if s["grp"] == (SEQ[0], SEQ[1])] + \
+          [c for c in ex.calls if c["name"] != name and any(contains(x, SEQ) for x in c["args"] if isinstance(x, tuple))]
+    bad = unsure = None
+    nexits = 0
+    for n in range(a.NCB + 1):
+        exits = sort_written(a, rp, bi, qi, n)
+        if not exits:
+            raise AnalysisError("%s(): no path to the exit for a bucket of %d items" % (name, n))
+        nexits += len(exits)
+        for (exact, W, trail) in exits:
+            missing = [i for i in range(n) if i not in W]
+            if missing and exact and bad is None:
+                bad = (n, missing, trail)
+            elif missing and not exact and unsure is None:
+                unsure = (n, missing)
+    a.L.floor(R, "(fill level, exit) pairs of the sort helper evaluated", nexits, a.NCB + 1)
+    if bad is None and unsure is not None:
+        raise AnalysisError("%s(): seq[%d] may stay unwritten for a bucket of %d items, on a path that depends on a branch "
+                            "the evaluation cannot decide or passes a write it cannot resolve -- unclassifiable" % (
+                                name, unsure[1][0], unsure[0]))
+    want = "seq[0 .. num_items-1] written on every path, for num_items = 0 .. %d" % a.NCB
+    found = want
+    if bad is not None and at_decl:
+        bad = None
+        found = "every element initialised at the array's declaration in tdma_sched_execute, in every call"
+    if bad is not None and own:
+        raise AnalysisError("%s(): seq[%d] is not written for a bucket of %d items, but tdma_sched_execute writes the sequence "
+                            "itself / hands it to another function as well -- unclassifiable" % (name, bad[1][0], bad[0]))
+    if bad is not None:
+        n, missing, trail = bad
+        found = "num_items = %d: seq[%s] is not written on the path %s -> return; tdma_sched_execute then runs item[seq[%d]] with %s" % (
+            n, ", ".join(str(i) for i in missing), " -> ".join(trail) if trail else "entry", missing[0],
+            "the order its static array kept from an earlier frame" if static else "an indeterminate index")
+    a.ob(R, name, "every position of the order sequence that tdma_sched_execute reads (seq[0 .. num_items-1]) is written by "
+         "%s() in the same call on every path, for every fill level of the bucket" % name, want, found, bad is None, fn.f)
+
+
 # ---------------------------------------------------------------- who-may-write scan
 
 INTTYPES_STUB = """#ifndef _VERIF_INTTYPES_H
@@ -3245,11 +3781,14 @@ def run(L, tier):
     L.stage(r2_ring, a)
     L.stage(who_may_write, a, tier)
     L.stage(r3_single, a)
+    a.set_fold = None                     # R8's verdict per witness class (None: the fold could not be run)
+    L.stage(r8_set_frames, a)
     L.stage(r3_set, a)
     sort = L.stage(r4_execute, a)
     L.stage(r5_sort, a, sort)
     L.stage(r6_prio_width, a, sort)
     L.stage(r7_reset, a)
+    L.stage(r9_order_initialised, a, sort)
     if a.folds:
         L.structural("C08.R2/R3: ring indices outside the normal form (cur_bucket + x) mod %d are that value for every "
                      "ring position and every offset (exhaustive fold of the finite domain)" % a.NFR, ring_proofs, a)
